@@ -5,6 +5,8 @@
              `M` line: the transcription of grammar.pest (Meta.Tokens.meta_grammar) must be the AST the real reader produces for it
      spec  : the real result must be Ok (abs c) (the property), unless the forest lies in the decidable known class
              (Meta.Spell.known_class) -> KNOWN line; the real forest must have the shape Meta.Spell.tokens_of_grammar c;
+             cases with m=1 (escalated search, no written AST): when the specification reader (Meta.Tokens.meta_grammar under Peg.Spec,
+             then Meta.Consume.consume) reads the text as Ok G, the real reader must return Ok G as well;
      harness: the generated spelling must satisfy wp / writable (the harness and Spell.v agree on what a legal spelling is). *)
 open Meta_model
 open Runner_common
@@ -152,6 +154,8 @@ let () =
   let fx = !fx in
   let known_for mt = (not fx.fix_insens && List.exists known_insens_gap mt) || (not fx.fix_bar && List.exists (known_nested_bar false) mt) in
   let n = ref 0 and known = ref 0 and reads = ref 0 and invalid = ref 0 and known_bar = ref 0 and known_ins = ref 0 in
+  let esc_reads = ref 0 and esc_legal = ref 0 and esc_agree = ref 0 and esc_skipped = ref 0 in
+  let has_field case k = List.exists (fun s -> String.length s > String.length k && String.sub s 0 (String.length k + 1) = k ^ "=") (String.split_on_char '|' case) in
   read_lines (fun line ->
     if String.length line > 0 && line.[0] = '#' then print_endline line
     else match split_tab line with
@@ -160,6 +164,30 @@ let () =
       incr n;
       let mine = sexp_grammar meta_grammar in
       if mine <> g then report "model" "metagrammar (coq/Meta/Tokens.v meta_grammar vs the real reader on grammar.pest)" g mine
+    | [case; impl] when has_field case "m" ->
+      (* escalated search: the text is not known to spell a given grammar; what it means is decided by the specification reader *)
+      (try
+        incr n; incr esc_reads;
+        let f = String.split_on_char '|' case in
+        let get k = let p = k ^ "=" in let x = List.find (fun s -> String.length s > String.length p - 1 && String.sub s 0 (String.length p) = p) f in
+                    String.sub x (String.length p) (String.length x - String.length p) in
+        let extras = get "x" = "1" in
+        let text = unhex (get "t") in
+        let bar = String.index impl '|' in
+        let res = String.sub impl 0 bar in
+        let fuel = nat_of_int (200 + 40 * List.length text) in
+        (match (try spec_parse meta_grammar false (fun _ -> None) text fuel (bytes_of "grammar_rules") with Stack_overflow -> SFuel) with
+         | SMatch (_, _, sf) ->
+           let mt = List.map of_tree sf in
+           let model = render (consume fx extras text mt) in
+           if String.length model > 3 && String.sub model 0 3 = "Ok " then begin
+             incr esc_legal;
+             if res = model then incr esc_agree
+             else if res = "Invalid" || known_for mt then incr esc_skipped
+             else report "spec" case res model
+           end
+         | SFail | SFuel -> ())
+      with Failure m | Invalid_argument m -> report "harness" case impl ("runner cannot read the line: " ^ m) | Not_found -> report "harness" case impl "runner cannot read the line")
     | [case; impl] ->
       (try
         incr n;
@@ -204,5 +232,5 @@ let () =
         end
       with Failure m | Invalid_argument m -> report "harness" case impl ("runner cannot read the line: " ^ m) | Not_found -> report "harness" case impl "runner cannot read the line")
     | _ -> ());
-  Printf.printf "#RUNNER\tcases=%d\tmismatches=%d\tknown_class=%d\tknown_nested_bar=%d\tknown_insens_gap=%d\tspec_forest_checks=%d\tinvalid_checked_on_model=%d\n"
-    !n !mismatches !known !known_bar !known_ins !reads !invalid
+  Printf.printf "#RUNNER\tcases=%d\tmismatches=%d\tknown_class=%d\tknown_nested_bar=%d\tknown_insens_gap=%d\tspec_forest_checks=%d\tinvalid_checked_on_model=%d\tescalation_spec_reads=%d\tescalation_read_as_a_grammar_by_the_specification=%d\tescalation_agreeing=%d\tescalation_outside_C07=%d\n"
+    !n !mismatches !known !known_bar !known_ins !reads !invalid !esc_reads !esc_legal !esc_agree !esc_skipped
